@@ -385,9 +385,7 @@ def no_realloc(ctx, taint, wiping_adts):
                     rep.violation('R-C20-3', key, 'secret data (%s) is pushed into a vector created with Vec::new(): it reallocates as it grows and the outgrown blocks are freed un-wiped' % ', '.join(sorted(src)), ctx.where(b, ctor_bb))
                     continue
                 ccap = canon(cap)
-                if cap.tag == 'const':
-                    rep.ok('R-C20-3', key, 'secret vector created with constant capacity %s (%d fill sites)' % (ccap, len(pushes)), ctx.where(b, ctor_bb), nontrivial=False)
-                    continue
+                const_cap = cap.tag == 'const'
                 loop_bounds = []
                 per_push = []
                 for e in pushes:
@@ -447,9 +445,22 @@ def no_realloc(ctx, taint, wiping_adts):
                     slack = ilen.padd(capp, total, -1)
                     verdict = ilen.ge0(slack)
                     vdet = 'capacity %s, filled with %s' % (capp, total)
+                    if not verdict:
+                        # symbolic fill counts against a smaller / constant capacity: bound each length by what the dominating guards and
+                        # the enum's largest discriminant allow
+                        bounded = bound_above(ctx, b, ctor_bb, total)
+                        if bounded is not None and ilen.is_const(capp):
+                            verdict = capp.get((), 0) >= bounded
+                            vdet = 'capacity %d, filled with at most %d (%s, each length bounded by the dominating guards)' % (capp.get((), 0), bounded, total)
+                        elif bounded is None and ilen.is_const(capp) and not ilen.is_const(total):
+                            verdict = False
+                            vdet = 'capacity %d, filled with %s, for which no upper bound is established' % (capp.get((), 0), total)
                 except Exception as ex:
                     verdict = None
                     vdet = 'not evaluated (%s)' % ex
+                if verdict is None and const_cap and not any(per_push):
+                    rep.ok('R-C20-3', key, 'secret vector created with constant capacity %s, %d straight-line fill sites (%s)' % (ccap, len(pushes), vdet[:80]), ctx.where(b, ctor_bb), nontrivial=False)
+                    continue
                 if verdict is not None:
                     rep.check(verdict, 'R-C20-3', key, 'secret vector is created with_capacity(%s), which covers its fills (%s)' % (ccap[:80], vdet[:160]),
                               'secret vector is created with_capacity(%s) but its fills can exceed it (%s): it reallocates and the outgrown block is freed un-wiped' % (ccap[:80], vdet[:200]),
@@ -471,6 +482,65 @@ def no_realloc(ctx, taint, wiping_adts):
                 rep.check(ok, 'R-C20-3', key, 'secret vector is created with_capacity(%s), which covers its filling loops' % ccap[:80],
                           'secret vector is created with_capacity(%s) but filled by loops over %s: it may reallocate' % (ccap[:80], [canon(x)[:60] for x in loop_bounds]), ctx.where(b, ctor_bb))
     rep.floor('R-C20-3', 'secret vector construction sites', n, 5)
+
+
+def bound_above(ctx, body, bb, poly):
+    """an integer upper bound of a polynomial with non-negative coefficients over length atoms, from guards `atom <= X` that dominate bb
+    (X a constant, or the discriminant of a crate enum: its largest discriminant); None when an atom has no bound"""
+    from . import ilen
+    from .panics import path_atoms
+    if any(c < 0 for c in poly.values()):
+        return None
+    known = path_atoms(ctx, body, bb)
+
+    def enum_max(name):
+        # `x.extension_degree`: a field whose type is a crate enum
+        last = name.split('.')[-1].split(' ')[0].rstrip(')')
+        for a in ctx.facts.adts.values():
+            if a['kind'] != 'Struct':
+                continue
+            for f in a['variants'][0]['fields']:
+                if f['name'] == last:
+                    en = ctx.facts.adts.get(f.get('ty', '').split('<')[0])
+                    if en and en['kind'] == 'Enum':
+                        try:
+                            return max(int(v['discr']) for v in en['variants'])
+                        except (TypeError, ValueError):
+                            return None
+        return None
+
+    def ub(atom, depth=0):
+        if depth > 3:
+            return None
+        if atom.isdigit():
+            return int(atom)
+        best = None
+        for a in known:
+            if a[0] == 'cmp' and a[1] in ('Le', 'Eq') and a[2] == atom:
+                x = a[3]
+                v = int(x) if x.isdigit() else ub(x, depth + 1)
+                if v is not None:
+                    best = v if best is None else min(best, v)
+            if a[0] == 'cmp' and a[1] == 'Eq' and a[3] == atom:
+                x = a[2]
+                v = int(x) if x.isdigit() else ub(x, depth + 1)
+                if v is not None:
+                    best = v if best is None else min(best, v)
+        if best is None:
+            m = enum_max(atom)
+            if m is not None:
+                best = m
+        return best
+    total = 0
+    for mono, c in poly.items():
+        term = c
+        for a in mono:
+            u = ub(a)
+            if u is None:
+                return None
+            term *= u
+        total += term
+    return total
 
 
 def cap_factors(t):
